@@ -1,5 +1,27 @@
 """Shared binding for C05 and C10 (spec/ReproDoc.tla): concretization of model documents,
-driving debian._deb822_repro, projection of the real document back to model form."""
+driving debian._deb822_repro, projection of the real document back to model form.
+
+API surface (notes/API_SURFACE.md): every public way of performing the operations of C05 / C10
+  entry point / variant                                             exercised by
+  parse_deb822_file(list of str / list of bytes / iterator /        parse(): rotating per replay (lts legs), str lines in
+      text file object / binary file object)                            recorded histories
+  Deb822FileElement.new_empty_file()                                 run_path() for the empty start document (config E)
+  p[k], p[(k, i)], p.get(k), p.get(k, default),                      apply_edge "get": rotating per call; every case variant of k
+      p.configured_view()[k], `k in p`, len(p), iteration             (check_state reads all occurrences under three spellings)
+  p[k] = v, p[(k, i)] = v, p.update({k: v}), p.setdefault(k, v)      apply_edge "set": rotating per call (setdefault only for an
+      (absent k), set_field_to_simple_value,                          absent field, where it is an assignment)
+      set_field_from_raw_string
+  del p[k], del p[(k, i)], p.pop(k), remove_kvpair_element           apply_edge "del": rotating per call
+  order_first / order_last / order_before / order_after              apply_edge, keys in any case variant, indexed and unindexed
+  sort_fields(), sort_fields(key=None), sort_fields(key=callable)    apply_edge "sort": rotating per call
+  Deb822FileElement.insert / append with a paragraph from            apply_edge "insert"/"append": rotating per call
+      new_empty_paragraph()+item assignment or from_dict()
+  dump(), dump(fd), convert_to_text(), iteration over paragraphs,    check_state after every (deep) step; a fresh parse of the dump
+      keys(), (name, i) lookup
+  out of domain: from_kvpairs() (re-parents the elements of another paragraph: aliasing by design),
+      appending a paragraph that already belongs to a file (ValueError by design), the interpreted
+      views of X04/C11, configured_view flags other than the defaults (extra X10), removal of paragraphs
+      (no public remove for paragraphs on the file element in the statement's operation list)."""
 import json
 
 WORDS = ["Architecture", "Build-Depends", "Depends", "Homepage", "Maintainer", "Package",
@@ -203,12 +225,18 @@ def apply_edge(f, e, conc, rng):
         pick = (lambda n: rng.randrange(n)) if rng is not None else (lambda n: 0)
         if op == "get":
             k = conc.key(rng, a[1])
-            v = pick(3)
+            v = pick(4)
             if v == 0:
                 return ("VAL", p[k])
             if v == 1:
                 r = p.get(k)
                 if r is None:
+                    raise KeyError(k)
+                return ("VAL", r)
+            if v == 2:
+                marker = object()
+                r = p.get(k, marker)
+                if r is marker:
                     raise KeyError(k)
                 return ("VAL", r)
             return ("VAL", p.configured_view()[k])
@@ -220,7 +248,11 @@ def apply_edge(f, e, conc, rng):
                 name = conc.key(rng, (n, -1))
             key = name if i < 0 else (name, i)
             v = pick(4)
-            if v == 0:
+            absent = not any(k.lower() == name.lower() for k in p.keys())
+            if absent and i < 0 and pick(3) == 0:
+                # MutableMapping.setdefault on an absent field is an assignment
+                p.setdefault(key, conc.new[a[3]][0])      # (its return value is not part of the statement)
+            elif v == 0:
                 p[key] = conc.new[a[3]][0]
             elif v == 1:
                 p.update({key: conc.new[a[3]][0]})
